@@ -113,6 +113,9 @@ def run(chk, tier, seed):
     base_progs = [coregen.Gen(seed * 101 + i, max_depth=3, n_decls=6, native_only=True, p_err=0.03).program("g%d" % i)
                   for i in range(n)]
     base_progs += history_programs(seed, 40 if tier == "quick" else 400)
+    # tail-recursive functions with default parameters (a tail self-call that omits a default is still a tail call)
+    from checks import c07
+    base_progs += [p for p in c07.default_tail_programs() if p["lim"] == c07.NOLIM and ".n6." in p["id"] or ".n3." in p["id"] and p["lim"] == c07.NOLIM]
     base, r0 = corecheck.tlc_expect(base_progs, "c08-base")
     chk.add_tlc(r0)
     variants = []
